@@ -310,7 +310,9 @@ func Closure(src Store, root string, o WalkOpts) (needs []Need, tags map[string]
 func matchType(raw []byte, types []string) bool {
 	var p struct {
 		ArtifactType string `json:"artifactType"`
-		Config       *struct{ MediaType string `json:"mediaType"` } `json:"config"`
+		Config       *struct {
+			MediaType string `json:"mediaType"`
+		} `json:"config"`
 	}
 	if json.Unmarshal(raw, &p) != nil {
 		return false
